@@ -73,7 +73,7 @@ def trimLoop (s : Bytes) : Nat → Nat → Bytes
     | some b =>
       if b.toNat < 0x80 then s.take (i + 1)
       else if runeStart b then
-        if (Utf8.decodeRune (s.drop i)).1 == Utf8.runeError then s.take i else s
+        if (Utf8.decodeRune (s.drop i)).1 == Utf8.runeError && (Utf8.decodeRune (s.drop i)).2.1 ≤ 1 then s.take i else s
       else trimLoop s steps i
 
 def trimLastInvalidRune (s : Bytes) : Bytes := trimLoop s 3 s.length
@@ -149,10 +149,24 @@ def queryReport (w : Nat → Nat) (isArg : Bool) (contents : Bytes) (perr : Opti
   let (linestr, line, column) := getLineByOffset w contents offset
   { multi := !isArg || containsNewline contents, line := line, linestr := linestr, column := column }
 
-/-- `yamlParseError.Error()` for the index go-yaml reported -/
-def yamlReport (w : Nat → Nat) (contents : Bytes) (index : Int) : Report :=
-  let (linestr, line, column) := getLineByOffset w contents (index + 1)
-  { multi := true, line := line, linestr := linestr, column := column }
+/-- the loop `for i := range contents { if index--; index < 0 { offset = i; break } }` of
+    `yamlParseError.Error`: byte offset of the `index`-th character (an invalid byte is one
+    character), `len(contents)` when there are fewer. `pos` = bytes already passed. -/
+def charToByte : Nat → Bytes → Nat → Nat → Nat
+  | 0, s, _, pos => pos + s.length
+  | _, [], _, pos => pos
+  | _ + 1, _ :: _, 0, pos => pos
+  | fuel + 1, s@(_ :: _), index + 1, pos =>
+    let n := max (Utf8.decodeRune s).2.1 1
+    charToByte fuel (s.drop n) index (pos + n)
+
+/-- `yamlParseError.Error()` for the CHARACTER index go-yaml reported (`none`: the error carries no
+    index and the message is printed without any position) -/
+def yamlReport (w : Nat → Nat) (contents : Bytes) (index : Int) : Option Report :=
+  if index < 0 then none else
+  let offset := charToByte contents.length contents index.toNat 0
+  let (linestr, line, column) := getLineByOffset w contents ((offset : Int) + 1)
+  some { multi := true, line := line, linestr := linestr, column := column }
 
 /-- the text printed for a report after the `invalid …: name` header, up to and including the caret -/
 def Report.render (r : Report) : Bytes :=
